@@ -283,6 +283,8 @@ static int ex_search(char **pat)
 	return row >= 0 && row < lbuf_len(xb) ? row : -1;
 }
 
+#define EX_NOLINE	(-(1 << 28))	/* the address cannot be resolved */
+
 static int ex_lineno(char **num)
 {
 	int n = xrow;
@@ -296,12 +298,13 @@ static int ex_lineno(char **num)
 		break;
 	case '\'':
 		if (lbuf_jump(xb, (unsigned char) *++(*num), &n, NULL))
-			return -1;
+			return EX_NOLINE;
 		++*num;
 		break;
 	case '/':
 	case '?':
-		n = ex_search(num);
+		if ((n = ex_search(num)) < 0)
+			return EX_NOLINE;
 		break;
 	default:
 		if (isdigit((unsigned char) **num)) {
@@ -334,7 +337,12 @@ static int ex_region(char *loc, int *beg, int *end)
 	}
 	while (*loc) {
 		int end0 = *end;
-		*end = ex_lineno(&loc) + 1;
+		int ln = ex_lineno(&loc);
+		if (ln == EX_NOLINE) {	/* unset mark or no match: not "line 0" */
+			*beg = *end = -1;
+			return 1;
+		}
+		*end = ln + 1;
 		*beg = naddr++ ? end0 - 1 : *end - 1;
 		if (!naddr++)
 			*beg = *end - 1;
